@@ -59,7 +59,7 @@ class Result:
         self.unwind_fail = False
 
 
-_CHECK_RE = re.compile(r"Check (\d+): (\S+)\n\s+- Status: (\S+)\n\s+- Description: \"(.*?)\"\n\s+- Location: (.*?)\n", re.S)
+_CHECK_RE = re.compile(r"Check (\d+): ([^\n]+)\n\s+- Status: (\S+)\n\s+- Description: \"(.*?)\"\n\s+- Location: (.*?)\n", re.S)
 
 
 def parse_output(out):
@@ -277,7 +277,10 @@ def confirm_failures(report, native_confirm=None):
                "-Z", "concrete-playback", "--concrete-playback=inplace"] + KANI_FLAGS
         rc, out, dt = common.run(cmd, cwd=crate.dir, env=common.base_env(), timeout=h.timeout or 900)
         src = open(os.path.join(crate.dir, "src", "lib.rs")).read()
-        tests = re.findall(r"fn (kani_concrete_playback_%s_\d+)\(" % re.escape(h.name), src)
+        tests = []
+        for m in re.finditer(r"/// Check for `(\w+)`: [^\n]*\n(?:\s*///[^\n]*\n|\s*\n)*\s*#\[test\]\s*fn (kani_concrete_playback_%s_\d+)\(" % re.escape(h.name), src):
+            if m.group(1) != "cover":
+                tests.append(m.group(2))
         if not tests:
             report.inconcl("harness %s failed (%s) but Kani produced no concrete playback" % (h.name, r.failed[:2]))
             continue
